@@ -11,6 +11,7 @@ CLAUSES = {
     602: "cancel() raised but a task was cancelled nevertheless",
     603: "a named running task did not observe exactly one CancelledError",
     604: "a task that was not named observed a CancelledError / stopped waiting",
+    607: "the msg given to cancel() did not reach the cancelled task's CancelledError",
     606: "a second cancel() of ids that were just cancelled did not raise AlreadyCancelled",
     605: "prologue did not reach the intended states (harness)",
     77: "reachability twin",
@@ -38,7 +39,7 @@ def _classify(w, forgotten, created, i):
     return "ended"
 
 
-def tpl_cancel(v, av, e, k, i1, i2, i3, t, _twin=False):
+def tpl_cancel(v, av, e, k, i1, i2, i3, t, m=0, sw=0, _twin=False):
     w = World("c06.cancel")
     code = 0
     try:
@@ -47,12 +48,14 @@ def tpl_cancel(v, av, e, k, i1, i2, i3, t, _twin=False):
         try:
             # fixed prologue: ids 0 flushed, 1 ended (inside its slow end callback), 2 cancelled (inside its slow
             # cancel callback), 3 and 4 running
-            it.apply(5); w.settle()
+            it.apply(5, swallow=(1 if sw == 1 else 0)); w.settle()
             it.release(0); w.settle()
             it.cb_release(0); w.settle()
             f0 = it.flush(True); w.settle()
             it.release(1); w.settle()
             it.cancel(2); w.settle()
+            if sw == 1:                 # workers shrug off their first cancellation: id 2 needs a second one
+                it.cancel(2); w.settle()
             if task_outcome(f0)[0] != "ok" or len(w.W) != 5:
                 return 605
             # one symbolic variation step, then optionally a fresh request placed t iterations before the call
@@ -74,7 +77,8 @@ def tpl_cancel(v, av, e, k, i1, i2, i3, t, _twin=False):
                     exp = {"unknown": InvalidTaskID, "cancelled": AlreadyCancelled, "ended": AlreadyEnded}[c]
                     break
             before = [(r["state"], r["cancels"]) for r in w.W]
-            err = it.cancel(*ids)
+            left0 = [r["left"] for r in w.W]
+            err = it.cancel(*ids, msg=("why" if m == 1 else None))
             w.settle()
             if exp is None:
                 if err is not None:
@@ -89,15 +93,28 @@ def tpl_cancel(v, av, e, k, i1, i2, i3, t, _twin=False):
                         if (r["state"], r["cancels"]) != (st0, c0):
                             code = 602
                     elif named:
-                        if r["state"] != "cancelled" or r["cancels"] != c0 + 1:
+                        want = "run" if (n < len(left0) and left0[n] > 0) else "cancelled"
+                        if r["state"] != want or r["cancels"] != c0 + 1:
                             code = 603
+                        elif m == 1 and r.get("cancel_args") != ("why",):
+                            code = 607
                     elif (r["state"], r["cancels"]) != (st0, c0):
                         code = 604
             if not code and err is None and k >= 1:
-                # the same ids again: every one of them is now cancelled (inside its slow cancel callback)
+                still = [r for r in w.W if any(r["id"] == i for i in ids) and r["state"] == "run"]
                 err2 = it.cancel(*ids)
-                if not isinstance(err2, AlreadyCancelled):
-                    code = 606
+                if still and len(still) == len([r for r in w.W if any(r["id"] == i for i in ids)]):
+                    # the named tasks swallowed the first cancellation and are still running: it must be delivered again
+                    w.settle()
+                    if err2 is not None:
+                        code = 601
+                    for r in still:
+                        if r["state"] != "cancelled" or r["cancels"] < 2:
+                            code = code or 603
+                elif not still:
+                    # the same ids again: every one of them is now cancelled (inside its slow cancel callback)
+                    if not isinstance(err2, AlreadyCancelled):
+                        code = 606
         except Excluded as ex:
             w.excluded = str(ex)
             code = 0
@@ -112,8 +129,8 @@ def tpl_cancel(v, av, e, k, i1, i2, i3, t, _twin=False):
 
 def families(tier):
     thorough = tier == "thorough"
-    P = ["v", "av", "e", "k", "i1", "i2", "i3", "t"]
-    pre = ["0 <= v <= %d" % NOP, "av >= -1", "0 <= e <= 1", "0 <= k <= 3", "t >= 0"]
+    P = ["v", "av", "e", "k", "i1", "i2", "i3", "t", "m", "sw"]
+    pre = ["0 <= v <= %d" % NOP, "av >= -1", "0 <= e <= 1", "0 <= k <= 3", "t >= 0", "0 <= m <= 1", "0 <= sw <= 1"]
     k3 = [["k == 3", "i1 <= 0"], ["k == 3", "i1 == 1"], ["k == 3", "i1 == 2"], ["k == 3", "i1 == 3"], ["k == 3", "i1 >= 4"]]
     k2 = [["k == 2", "i1 <= 1"], ["k == 2", "i1 == 2 or i1 == 3"], ["k == 2", "i1 >= 4"]]
     if not thorough:
@@ -134,4 +151,4 @@ def families(tier):
             else:
                 parts.append(["v == %d" % v] + q)
     return [Family(name="cancel", fn="tpl_cancel", params=P, pre=pre, parts=parts,
-                   twin_pre=["v == %d" % NOP, "e == 0", "k == 2"], twin_args=[NOP, 0, 0, 2, 3, 4, 0, 0])]
+                   twin_pre=["v == %d" % NOP, "e == 0", "k == 2"], twin_args=[NOP, 0, 0, 2, 3, 4, 0, 0, 0, 0])]
